@@ -569,3 +569,223 @@ Example C07_init_nonvacuous :
    map (fun o => ok (io_res o)) os = [true; true] /\ map (fun o => ir_evals (io_init o)) os = [0%Z; 1%Z]) /\
   (pg (v_p (it_view (w_plain_it fone))) <? fzero) = false.
 Proof. vm_compute. repeat split; reflexivity. Qed.
+
+(* =====================================================================================================================
+   QUAD extension -- the exact-arithmetic core of "on convex quadratic objectives all five line-searches succeed and satisfy
+   their advertised conditions".  Model: C07_Quad_Defs.v = the same algorithms read over the ordered field Q (every expression is
+   the exact-rational reading Src_c07_q.v of the translated source tree), probe  phi(t) = f0 + g0 t + (a/2) t^2, g0 < 0 < a,
+   exact minimiser t* = -g0/a;  U = 2(1-c1)t*  (armijo_hi),  W = (1-c2)t*  (wolfe_lo),  V = (1+c2)t*  (swolfe_hi).
+   Nothing here transfers automatically to binary64 (rounding): there the clause stays searched; the harness checks the proved
+   regions / iteration bounds on the real searches for exactly representable data, and the extracted model must agree with the
+   library whenever every intermediate value is exactly representable (stage QUAD of ./check C07).
+   ===================================================================================================================== *)
+From Coq Require Import QArith Qabs.
+From LNGen Require Import Src_c07_q.
+From LN Require Import C07_Quad_Defs C07_Quad.
+Close Scope float_scope.
+Local Open Scope Q_scope.
+
+(* (1) the acceptance regions in closed form *)
+Theorem C07_quad_acceptance_regions : forall f0 g0 a, g0 < 0 -> 0 < a -> forall c1 c2 t, c1 < 1 ->
+  (q_has_armijo (quad0 f0 g0) (quad f0 g0 a t) t c1 = true <-> 0 <= t <= armijo_hi c1 g0 a) /\
+  (q_has_wolfe (quad0 f0 g0) (quad f0 g0 a t) c2 = true <-> wolfe_lo c2 g0 a <= t) /\
+  (q_has_strong_wolfe (quad0 f0 g0) (quad f0 g0 a t) c2 = true <-> wolfe_lo c2 g0 a <= t <= swolfe_hi c2 g0 a).
+Proof.
+  intros f0 g0 a Hg Ha c1 c2 t Hc. split; [exact (armijo_region_full f0 g0 a Hg Ha c1 t Hc) |].
+  split; [exact (wolfe_region f0 g0 a Ha c2 t) | exact (swolfe_region f0 g0 a Hg Ha c2 t)].
+Qed.
+Print Assumptions C07_quad_acceptance_regions.
+
+(* for 0 < c1 < c2 < 1 Armijo+Wolfe is the interval [W, U] of positive length; Armijo+strong Wolfe = [W, min(U, V)] contains W *)
+Theorem C07_quad_armijo_wolfe_interval_nonempty : forall g0 a, g0 < 0 -> 0 < a -> forall c1 c2, 0 < c1 -> c1 < c2 -> c2 < 1 ->
+  0 < wolfe_lo c2 g0 a < armijo_hi c1 g0 a.
+Proof. exact armijo_wolfe_nonempty. Qed.
+Print Assumptions C07_quad_armijo_wolfe_interval_nonempty.
+
+(* the exact minimiser satisfies (strong) Wolfe for every c2 >= 0, and Armijo iff c1 <= 1/2: for c1 > 1/2 a search that steers
+   to t* cannot be accepted there -- the mechanism behind the known finding C07-cgdescent-fails-on-quadratic-c1-ge-half and behind
+   seeded change C07/4 (lemarechal's safeguard keeps the interpolated step t* away from R only through interp_max) *)
+Theorem C07_quad_minimiser_armijo_iff_c1_le_half : forall f0 g0 a, g0 < 0 -> 0 < a -> forall c1 c2, c1 < 1 -> 0 <= c2 ->
+  (q_has_armijo (quad0 f0 g0) (quad f0 g0 a (tstar g0 a)) (tstar g0 a) c1 = true <-> c1 <= 1 # 2) /\
+  q_has_strong_wolfe (quad0 f0 g0) (quad f0 g0 a (tstar g0 a)) c2 = true /\
+  q_has_wolfe (quad0 f0 g0) (quad f0 g0 a (tstar g0 a)) c2 = true.
+Proof.
+  intros f0 g0 a Hg Ha c1 c2 Hc1 Hc2. split; [exact (minimiser_armijo_iff f0 g0 a Hg Ha c1 Hc1) | exact (minimiser_swolfe f0 g0 a Hg Ha c2 Hc2)].
+Qed.
+Print Assumptions C07_quad_minimiser_armijo_iff_c1_le_half.
+
+(* (2) backtracking, ANY interpolation mode (the safeguards as written keep the next trial in [s t, (1-s) t]): from any t > 0 the
+   search succeeds after at most n further trial steps as soon as (1-s)^n t <= U; the accepted step lies in (0, U] *)
+Theorem C07_quad_backtrack_succeeds : forall (f0 g0 a : Q) (prm : qparams),
+  g0 < 0 -> 0 < a -> qc1 prm < 1 -> 0 < qsafeguard prm -> qsafeguard prm <= 1 # 2 ->
+  forall (n fuel : nat) (st : qstate) (t : Q),
+  0 < t -> qcur st = quad f0 g0 a t -> qpow (1 - qsafeguard prm) n * t <= armijo_hi (qc1 prm) g0 a -> (n < fuel)%nat ->
+  let r := q_backtrack (quad f0 g0 a) prm (quad0 f0 g0) fuel st t in
+  qok r = true /\ (qcnt st <= qcnt (qrs r) <= qcnt st + Z.of_nat n)%Z /\ 0 < qrt r /\ qrt r <= armijo_hi (qc1 prm) g0 a /\
+  qcur (qrs r) = quad f0 g0 a (qrt r) /\ q_has_armijo (quad0 f0 g0) (qcur (qrs r)) (qrt r) (qc1 prm) = true.
+Proof. exact q_backtrack_geometric. Qed.
+Print Assumptions C07_quad_backtrack_succeeds.
+
+(* ... and such an n exists for every start: the budget dependence of the clause is "max_iterations > N(t, t*, c1, s)" *)
+Theorem C07_quad_backtrack_budget_exists : forall g0 a c1 s t, g0 < 0 -> 0 < a -> c1 < 1 -> 0 < s -> s <= 1 # 2 -> 0 < t ->
+  exists n, qpow (1 - s) n * t <= armijo_hi c1 g0 a.
+Proof. exact q_backtrack_budget_exists. Qed.
+Print Assumptions C07_quad_backtrack_budget_exists.
+
+(* sharper with quadratic interpolation (its minimiser IS t* ) and c1 <= 1/2: the step is s^k t while s t > t*, then t* (or (1-s) t),
+   which is acceptable: at most m + 1 trial steps when s^m (s t) <= t* *)
+Theorem C07_quad_backtrack_quadratic_sharp : forall (f0 g0 a : Q) (prm : qparams),
+  g0 < 0 -> 0 < a -> qc1 prm <= 1 # 2 -> 0 < qsafeguard prm -> qsafeguard prm <= 1 # 2 -> qinterp prm = 1%Z ->
+  forall (m fuel : nat) (st : qstate) (t : Q),
+  0 < t -> qcur st = quad f0 g0 a t -> qpow (qsafeguard prm) m * (qsafeguard prm * t) <= tstar g0 a -> (S m < fuel)%nat ->
+  let r := q_backtrack (quad f0 g0 a) prm (quad0 f0 g0) fuel st t in
+  qok r = true /\ (qcnt st <= qcnt (qrs r) <= qcnt st + Z.of_nat (S m))%Z /\ 0 < qrt r /\ qrt r <= armijo_hi (qc1 prm) g0 a /\
+  qcur (qrs r) = quad f0 g0 a (qrt r) /\ q_has_armijo (quad0 f0 g0) (qcur (qrs r)) (qrt r) (qc1 prm) = true.
+Proof. exact q_backtrack_quadratic_sharp. Qed.
+Print Assumptions C07_quad_backtrack_quadratic_sharp.
+
+(* the interpolation formulas of lstep.cpp are exact on quadratic data: quadratic(u, v) and secant(u, v) return t* *)
+Theorem C07_quad_interpolants_exact : forall (f0 g0 a : Q) (u v : qstep),
+  0 < a -> on_quad f0 g0 a u -> on_quad f0 g0 a v -> ~ qs_t u == qs_t v ->
+  (exists x, q_quadratic u v = Some x /\ x == tstar g0 a) /\ (exists x, q_secant u v = Some x /\ x == tstar g0 a).
+Proof. intros f0 g0 a u v Ha Hu Hv Hne. split; [exact (q_quadratic_exact f0 g0 a u v Ha Hu Hv Hne) | exact (q_secant_exact f0 g0 a u v Ha Hu Hv Hne)]. Qed.
+Print Assumptions C07_quad_interpolants_exact.
+
+(* (3) LeMarechal do_get from any t > 0: n1 extrapolations (tau1^n1 t >= W) pass W, then the bracket -- which contains [W, U]
+   strictly -- shrinks by 1 - s per step and cannot become narrower than U - W: success within n1 + n2 trial steps, in [W, U] *)
+Theorem C07_quad_lemarechal_succeeds : forall (f0 g0 a : Q) (prm : qparams),
+  g0 < 0 -> 0 < a -> 0 < qc1 prm -> qc1 prm < qc2 prm -> qc2 prm < 1 -> 0 < qsafeguard prm -> qsafeguard prm <= 1 # 2 ->
+  1 < qtau1 prm -> q_eps0 <= armijo_hi (qc1 prm) g0 a ->
+  forall (n1 n2 fuel : nat) (st : qstate) (t : Q),
+  0 < t -> qcur st = quad f0 g0 a t ->
+  wolfe_lo (qc2 prm) g0 a <= qpow (qtau1 prm) n1 * t ->
+  qpow (1 - qsafeguard prm) n2 * qmax t (qtau1 prm * wolfe_lo (qc2 prm) g0 a) <= armijo_hi (qc1 prm) g0 a - wolfe_lo (qc2 prm) g0 a ->
+  (n1 + n2 + 1 <= fuel)%nat ->
+  let r := q_lemarechal (quad f0 g0 a) prm (quad0 f0 g0) fuel st t (q_step0 (quad0 f0 g0)) (q_step0 (quad0 f0 g0)) in
+  qok r = true /\ (qcnt st <= qcnt (qrs r) <= qcnt st + Z.of_nat (n1 + n2))%Z /\
+  wolfe_lo (qc2 prm) g0 a <= qrt r /\ qrt r <= armijo_hi (qc1 prm) g0 a /\ qcur (qrs r) = quad f0 g0 a (qrt r) /\
+  q_has_armijo (quad0 f0 g0) (qcur (qrs r)) (qrt r) (qc1 prm) = true /\ q_has_wolfe (quad0 f0 g0) (qcur (qrs r)) (qc2 prm) = true.
+Proof. exact q_lemarechal_succeeds. Qed.
+Print Assumptions C07_quad_lemarechal_succeeds.
+
+(* lsearchk_t::get composed with the searches, through the executable bounds the driver evaluates: max_iterations > N => success *)
+Theorem C07_quad_get_backtrack_bound : forall f0 g0 a prm, g0 < 0 -> 0 < a -> 0 < qsafeguard prm -> qsafeguard prm <= 1 # 2 ->
+  forall t0 F n, qc1 prm < 1 ->
+  let t1 := q_init_step t0 in
+  q_eps1 <= Qabs (qf (quad f0 g0 a t1) - f0) ->
+  bt_bound F (qsafeguard prm) (qc1 prm) g0 a t1 = Some n -> (Z.of_nat n < qmaxit prm)%Z ->
+  let r := q_ls_get (quad f0 g0 a) prm (quad0 f0 g0) QBacktrack t0 in
+  qok r = true /\ (1 <= qcnt (qrs r) <= 1 + Z.of_nat n)%Z /\ 0 < qrt r /\ qrt r <= armijo_hi (qc1 prm) g0 a /\
+  qcur (qrs r) = quad f0 g0 a (qrt r) /\ q_has_armijo (quad0 f0 g0) (qcur (qrs r)) (qrt r) (qc1 prm) = true.
+Proof. exact q_get_backtrack_bound. Qed.
+Print Assumptions C07_quad_get_backtrack_bound.
+
+Theorem C07_quad_get_backtrack_quadratic_bound : forall f0 g0 a prm, g0 < 0 -> 0 < a -> 0 < qsafeguard prm -> qsafeguard prm <= 1 # 2 ->
+  forall t0 F n, qc1 prm <= 1 # 2 -> qinterp prm = 1%Z ->
+  let t1 := q_init_step t0 in
+  q_eps1 <= Qabs (qf (quad f0 g0 a t1) - f0) ->
+  bt_bound_quadratic F (qsafeguard prm) g0 a t1 = Some n -> (Z.of_nat n < qmaxit prm)%Z ->
+  let r := q_ls_get (quad f0 g0 a) prm (quad0 f0 g0) QBacktrack t0 in
+  qok r = true /\ (1 <= qcnt (qrs r) <= 1 + Z.of_nat n)%Z /\ 0 < qrt r /\ qrt r <= armijo_hi (qc1 prm) g0 a /\
+  qcur (qrs r) = quad f0 g0 a (qrt r) /\ q_has_armijo (quad0 f0 g0) (qcur (qrs r)) (qrt r) (qc1 prm) = true.
+Proof. exact q_get_backtrack_quadratic_bound. Qed.
+Print Assumptions C07_quad_get_backtrack_quadratic_bound.
+
+Theorem C07_quad_get_lemarechal_bound : forall f0 g0 a prm, g0 < 0 -> 0 < a -> 0 < qc1 prm -> 0 < qsafeguard prm -> qsafeguard prm <= 1 # 2 ->
+  forall t0 F n, qc1 prm < qc2 prm -> qc2 prm < 1 -> 1 < qtau1 prm -> q_eps0 <= armijo_hi (qc1 prm) g0 a ->
+  let t1 := q_init_step t0 in
+  q_eps1 <= Qabs (qf (quad f0 g0 a t1) - f0) ->
+  lem_bound F (qsafeguard prm) (qtau1 prm) (qc1 prm) (qc2 prm) g0 a t1 = Some n -> (Z.of_nat n + 1 < qmaxit prm)%Z ->
+  let r := q_ls_get (quad f0 g0 a) prm (quad0 f0 g0) QLemarechal t0 in
+  qok r = true /\ (1 <= qcnt (qrs r) <= 1 + Z.of_nat n)%Z /\ wolfe_lo (qc2 prm) g0 a <= qrt r /\ qrt r <= armijo_hi (qc1 prm) g0 a /\
+  qcur (qrs r) = quad f0 g0 a (qrt r) /\ q_has_armijo (quad0 f0 g0) (qcur (qrs r)) (qrt r) (qc1 prm) = true /\
+  q_has_wolfe (quad0 f0 g0) (qcur (qrs r)) (qc2 prm) = true.
+Proof. exact q_get_lemarechal_bound. Qed.
+Print Assumptions C07_quad_get_lemarechal_bound.
+
+(* lsearchk_t::get on the quadratic: the first trial point clamp(t0) in [stpmin, 1] is valid (no `*0.3` loop); when it moves the
+   value by at least epsilon1 there is no `*3` loop and do_get starts there *)
+Theorem C07_quad_get_starts_do_get : forall (f0 g0 a : Q) (prm : qparams), g0 < 0 -> (0 < qmaxit prm)%Z -> forall (alg : qalg) (t0 : Q),
+  let t1 := q_init_step t0 in
+  (q_stpmin <= t1 /\ t1 <= 1 /\ 0 < t1) /\
+  (q_eps1 <= Qabs (qf (quad f0 g0 a t1) - f0) ->
+   q_ls_get (quad f0 g0 a) prm (quad0 f0 g0) alg t0 =
+   q_do_get (quad f0 g0 a) prm (quad0 f0 g0) alg (q_update (quad f0 g0 a) (q_init_state (quad0 f0 g0)) t1) t1).
+Proof. intros f0 g0 a prm Hg Hm alg t0. split; [exact (q_init_step_range t0) | exact (q_ls_get_quad_start f0 g0 a prm Hg Hm alg t0)]. Qed.
+Print Assumptions C07_quad_get_starts_do_get.
+
+(* (4) More-Thuente: its convergence test `f <= ftest && |g| <= gtol (-ginit)` on the quadratic is exactly W <= t <= min(U, V),
+   i.e. Armijo + strong Wolfe in closed form (composes with C07_morethuente_success_cases: the `converged` disjunct) *)
+Theorem C07_quad_morethuente_converged_region : forall (f0 g0 a : Q) (prm : qparams), g0 < 0 -> 0 < a -> qc1 prm < 1 -> forall t, 0 < t ->
+  (q_mt_converged prm (quad0 f0 g0) (quad f0 g0 a t) t = true <->
+   wolfe_lo (qc2 prm) g0 a <= t /\ t <= armijo_hi (qc1 prm) g0 a /\ t <= swolfe_hi (qc2 prm) g0 a).
+Proof. exact q_mt_converged_region. Qed.
+Print Assumptions C07_quad_morethuente_converged_region.
+
+(* CG_DESCENT: on a valid initial bracket [0, tb] (dg(tb) >= 0) the first secant step of the main loop is the exact minimiser, and
+   interval_t::done accepts it iff c1 <= 1/2 (Wolfe exit of C07_cgdescent_success_cases); for c1 > 1/2 it is rejected (neither
+   Armijo nor the approximate Wolfe condition (2 c1 - 1) dg0 >= dg = 0 holds): the known finding, as a theorem *)
+Theorem C07_quad_cgdescent_first_secant : forall (f0 g0 a : Q) (prm : qparams),
+  g0 < 0 -> 0 < a -> qc1 prm < 1 -> 0 <= qc2 prm -> 0 <= qcg_epsilon prm ->
+  forall (st : qstate) (tb : Q), 0 < tb -> 0 <= quad_g g0 a tb ->
+  exists (t : Q) (st' : qstate),
+    q_cg_first_secant (quad f0 g0 a) prm (quad0 f0 g0) st (q_step0 (quad0 f0 g0)) (qstep_of tb (quad f0 g0 a tb)) =
+    Some (Qle_bool (qc1 prm) (1 # 2), t, st') /\ t == tstar g0 a /\ qcur st' = quad f0 g0 a t /\ qcnt st' = (qcnt st + 1)%Z.
+Proof. exact q_cg_first_secant_exact. Qed.
+Print Assumptions C07_quad_cgdescent_first_secant.
+
+(* the translated expressions behind the exact model (safeguarded ranges, extrapolation, zoom's decisions, denominators) *)
+Theorem C07_quad_kernels_pinned :
+  (forall tmin s tmax, src_bt_interp_min_q tmin s tmax = tmin + s * (tmax - tmin) /\ src_bt_interp_max_q tmin s tmax = tmax - s * (tmax - tmin)) /\
+  (forall lt s rt, src_lem_interp_min_a_q lt s rt = lt + s * (rt - lt) /\ src_lem_interp_max_a_q lt s rt = rt - s * (rt - lt) /\
+                   src_lem_interp_min_b_q lt s rt = lt + s * (rt - lt) /\ src_lem_interp_max_b_q lt s rt = rt - s * (rt - lt)) /\
+  (forall rt e, src_lem_r_unset_q rt e = qltb rt e) /\ (forall tau1 lt, src_lem_extrapolate_q tau1 lt = tau1 * lt) /\
+  (forall ct pt tau1, src_fl_tmin_q ct pt = ct + 2 * (ct - pt) /\ src_fl_tmax_q ct tau1 pt = ct + tau1 * (ct - pt)) /\
+  (forall ad e, src_zoom_guard_q ad e = qltb e ad) /\
+  (forall lot hit tau2 c2 tau3 ad, src_zoom_tmin_q lot hit tau2 c2 ad = qmin lot hit + qmin tau2 c2 * ad /\
+                                   src_zoom_tmax_q lot hit tau3 ad = qmax lot hit - tau3 * ad) /\
+  (forall arm fx lof, src_zoom_to_hi_q arm fx lof = negb arm || Qle_bool lof fx) /\
+  (forall dg hit lot, src_zoom_flip_q dg hit lot = Qle_bool 0 (dg * (hit - lot))) /\
+  (forall arm cf pf, src_fl_to_zoom_q arm cf pf = negb arm || Qle_bool pf cf) /\
+  (forall ut uf ug vt vf vg d2 dt df, src_cubic_den_q ut uf ug vt vf vg d2 = vg - ug + 2 * d2 /\
+                                      src_quadratic_den_q ut uf ug vt vf vg dt df = ug - df / dt /\
+                                      src_secant_den_q ut uf ug vt vf vg = ug - vg).
+Proof. exact q_kernels_pinned. Qed.
+Print Assumptions C07_quad_kernels_pinned.
+
+(* ---------- non-vacuity: phi(t) = (t - 1)^2 = 1 - 2 t + t^2 (t* = 1) with the library defaults (c1, c2) = (1e-4, 0.1) as exact
+   rationals of the doubles' decimal values, safeguard 1/10, tau1 = 9, max_iterations = 128 ---------- *)
+Definition quad_prm (i : Z) : qparams := mkQPrm (1 # 10000) (1 # 10) 128 i (1 # 10) 9 (1 # 10) (1 # 2) (1 # 1000000).
+
+Example C07_quad_nonvacuous_hypotheses :
+  (-2 < 0) /\ 0 < 2 /\ 0 < qc1 (quad_prm 1) /\ qc1 (quad_prm 1) < qc2 (quad_prm 1) /\ qc2 (quad_prm 1) < 1 /\ qc1 (quad_prm 1) <= 1 # 2 /\
+  0 < qsafeguard (quad_prm 1) /\ qsafeguard (quad_prm 1) <= 1 # 2 /\ 1 < qtau1 (quad_prm 1) /\ 0 <= qcg_epsilon (quad_prm 1) /\
+  q_eps0 <= armijo_hi (qc1 (quad_prm 1)) (-2) 2 /\
+  q_eps1 <= Qabs (qf (quad 1 (-2) 2 (q_init_step (1 # 8))) - 1) /\
+  tstar (-2) 2 == 1 /\ armijo_hi (1 # 10000) (-2) 2 == 9999 # 5000 /\ wolfe_lo (1 # 10) (-2) 2 == 9 # 10 /\ swolfe_hi (1 # 10) (-2) 2 == 11 # 10 /\
+  on_quad 1 (-2) 2 (qstep_of 0 (quad0 1 (-2))) /\ on_quad 1 (-2) 2 (qstep_of 3 (quad 1 (-2) 2 3)) /\ 0 <= quad_g (-2) 2 3.
+Proof. vm_compute. repeat split; discriminate. Qed.
+
+(* the searches on it: backtrack accepts the first trial point, lemarechal needs one extrapolation (1/8 -> 9/8 in [W, U]),
+   fletcher reaches t* = 1; the computed bounds: N = 0 (backtrack), 0 + 20 (lemarechal from 1/8); a start at t = 8 with
+   quadratic interpolation: 8 -> 1 (one step, sharp bound 1 + 0); CG_DESCENT's first secant step on the bracket [0, 3] is t* = 1 *)
+Example C07_quad_nonvacuous_runs :
+  (let r := q_ls_get (quad 1 (-2) 2) (quad_prm 2) (quad0 1 (-2)) QBacktrack (1 # 8) in (qok r, qrt r, qcnt (qrs r))) = (true, 1 # 8, 1%Z) /\
+  (let r := q_ls_get (quad 1 (-2) 2) (quad_prm 2) (quad0 1 (-2)) QLemarechal (1 # 8) in (qok r, qrt r, qcnt (qrs r))) = (true, 9 # 8, 2%Z) /\
+  (let r := q_ls_get (quad 1 (-2) 2) (quad_prm 1) (quad0 1 (-2)) QFletcher (1 # 8) in (qok r, qrt r, qcnt (qrs r))) = (true, 1, 2%Z) /\
+  bt_bound 100 (1 # 10) (1 # 10000) (-2) 2 (1 # 8) = Some 0%nat /\
+  lem_bound 100 (1 # 10) 9 (1 # 10000) (1 # 10) (-2) 2 (1 # 8) = Some 20%nat /\
+  (let s := q_update (quad 1 (-2) 2) (q_init_state (quad0 1 (-2))) 8 in
+   let r := q_backtrack (quad 1 (-2) 2) (quad_prm 1) (quad0 1 (-2)) 128 s 8 in (qok r, qrt r, qcnt (qrs r))) = (true, 1, 2%Z) /\
+  bt_bound_quadratic 100 (1 # 10) (-2) 2 8 = Some 1%nat /\ bt_bound 100 (1 # 10) (1 # 10000) (-2) 2 8 = Some 14%nat /\
+  (match q_cg_first_secant (quad 1 (-2) 2) (quad_prm 1) (quad0 1 (-2)) (q_init_state (quad0 1 (-2))) (q_step0 (quad0 1 (-2)))
+                           (qstep_of 3 (quad 1 (-2) 2 3)) with Some (d, t, _) => (d, t) | None => (false, 0) end) = (true, 1).
+Proof. vm_compute. repeat split. Qed.
+
+(* c1 > 1/2 (still inside the registered domain 0 < c1 < c2 < 1): the exact minimiser is rejected by CG_DESCENT's `done` *)
+Example C07_quad_cgdescent_rejects_minimiser_c1_gt_half :
+  let prm := mkQPrm (3 # 4) (19 # 20) 128 2 (1 # 10) 9 (1 # 10) (1 # 2) (1 # 1000000) in
+  (match q_cg_first_secant (quad 1 (-2) 2) prm (quad0 1 (-2)) (q_init_state (quad0 1 (-2))) (q_step0 (quad0 1 (-2)))
+                           (qstep_of 3 (quad 1 (-2) 2 3)) with Some (d, t, _) => (d, t) | None => (true, 0) end) = (false, 1) /\
+  q_has_armijo (quad0 1 (-2)) (quad 1 (-2) 2 1) 1 (3 # 4) = false.
+Proof. vm_compute. split; reflexivity. Qed.
